@@ -267,6 +267,131 @@ theorem C10_key_ctor_sound (c : CurveParams) (mul : Int → Except Curve.Err Pt)
 
 end ctor
 
+/-! ## WIF (`Key.wif`, `wif_for_blob`, `ParseAPI.wif`) -/
+section wif
+open Pycoin.Sec Pycoin.KeyCtor Pycoin.Wif Pycoin.Curve
+
+/-- the table: on every network whose Base58Check is the double-SHA-256 one, the prefix `wif_for_blob` writes is
+the prefix `ParseAPI.wif` expects, and there is one (1 byte, or 2 bytes on DCR/DCRT) -/
+theorem C10_wif_table :
+    ∀ net ∈ Gen.Networks.all, net.b58DoubleSha = true →
+      net.parseWif = net.outWif ∧ ∃ pfx, net.outWif = some pfx ∧ 1 ≤ pfx.length ∧ pfx.length ≤ 2 := by
+  decide +kernel
+
+/-- DCR and DCRT are in the table with 2-byte prefixes (so the 2-byte case of the round trip is not vacuous) -/
+theorem C10_wif_table_two_byte :
+    ∃ net ∈ Gen.Networks.all, net.b58DoubleSha = true ∧ ∃ pfx, net.outWif = some pfx ∧ pfx.length = 2 := by
+  decide +kernel
+
+theorem isPrefixOf_append (p d : Bytes) : p.isPrefixOf (p ++ d) = true := by
+  induction p with
+  | nil => simp
+  | cons a p ih => simp [List.isPrefixOf, ih]
+
+/-- the round trip for one prefix, any multiplication function: what `key.wif(flag)` prints, `parse.wif` reads
+back as the same exponent, the same public pair and the flag that was written -/
+theorem wif_rt_prefix (c : CurveParams) (hn : c.n ≤ 2 ^ 256) (mul : Int → Except Curve.Err Pt)
+    (net : Addr.Network) (pfx : Bytes) (hout : net.outWif = some pfx) (hparse : net.parseWif = some pfx)
+    (d : Int) (comp : Bool) (k : Key) (hk : keyFromSecretWith c mul d comp = .ok k) (flag : Option Bool) :
+    ∃ t, Key.wif net k flag = .ok (some t) ∧
+      parseWifWith c mul net t = .ok (some ⟨some d, k.pub, flag.getD comp⟩) := by
+  obtain ⟨hd1, hdn, hse, hcomp, hmul, hon⟩ := (C10_key_ctor_sound c mul d comp k).1 hk
+  have hd0 : 0 ≤ d := by omega
+  have hd256 : d < 2 ^ 256 := by omega
+  -- the key that the parser rebuilds
+  have hk' : ∀ f, keyFromSecretWith c mul d f = .ok ⟨some d, k.pub, f⟩ := by
+    intro f
+    unfold keyFromSecretWith
+    have : ¬ (d < 1 ∨ d ≥ c.n) := by omega
+    rw [if_neg this, hmul]
+    simp [hon]
+  have hfrom : fromBytes32 (beBytes d.toNat 32) = d := by
+    rw [fromBytes32_beBytes (by omega)]; omega
+  -- the text
+  let blob : Bytes := if flag.getD comp then beBytes d.toNat 32 ++ [1] else beBytes d.toNat 32
+  obtain ⟨t, ht1, ht2⟩ := Base58.C11_b58check_rt (pfx ++ blob)
+  refine ⟨t, ?_, ?_⟩
+  · unfold Key.wif
+    rw [hse]
+    simp only [toBytes32_ok hd0 hd256, hcomp]
+    unfold wifForBlob
+    rw [hout]
+    simp only
+    rw [show (if flag.getD comp = true then beBytes d.toNat 32 ++ [1] else beBytes d.toNat 32) = blob from rfl, ht1]
+    rfl
+  · unfold parseWifWith
+    rw [Base58.C11_parse_b58_agrees, ht2, hparse]
+    simp only [isPrefixOf_append, if_true, List.drop_left]
+    by_cases hf : flag.getD comp = true
+    · have hb : blob = beBytes d.toNat 32 ++ [1] := by simp [blob, hf]
+      rw [hb]
+      have h1 : (beBytes d.toNat 32 ++ [1]).length = 33 := by simp
+      have h2 : (beBytes d.toNat 32 ++ [(1 : UInt8)]).drop 32 = [1] := by
+        rw [List.drop_append_of_le_length (by simp)]
+        simp
+      have h3 : (beBytes d.toNat 32 ++ [(1 : UInt8)]).take 32 = beBytes d.toNat 32 := by
+        rw [List.take_append_of_le_length (by simp)]
+        simp
+      rw [if_pos ⟨h1, h2⟩, h3, hfrom, hk' true, hf]
+    · have hb : blob = beBytes d.toNat 32 := by simp [blob, hf]
+      rw [hb]
+      have h1 : ¬ ((beBytes d.toNat 32).length = 33 ∧ (beBytes d.toNat 32).drop 32 = [1]) := by simp
+      have h2 : (beBytes d.toNat 32).length = 32 := by simp
+      rw [if_neg h1, if_pos h2, hfrom, hk' false]
+      have : flag.getD comp = false := by simpa using hf
+      rw [this]
+
+/-- C10.wif_rt — on every network of the generated table (Groestl family excepted), for both compression flags,
+with either arithmetic configuration (`mul`): `network.parse.wif(key.wif())` is a key with the same secret exponent,
+public pair and compression flag.  `flag = none` is `key.wif()`, `some f` is `key.wif(is_compressed=f)`. -/
+theorem C10_wif_rt (c : CurveParams) (hn : c.n ≤ 2 ^ 256) (mul : Int → Except Curve.Err Pt)
+    (net : Addr.Network) (hnet : net ∈ Gen.Networks.all) (hb58 : net.b58DoubleSha = true)
+    (d : Int) (comp : Bool) (k : Key) (hk : keyFromSecretWith c mul d comp = .ok k) (flag : Option Bool) :
+    ∃ t, Key.wif net k flag = .ok (some t) ∧
+      parseWifWith c mul net t = .ok (some ⟨some d, k.pub, flag.getD comp⟩) := by
+  obtain ⟨heq, pfx, hout, -, -⟩ := C10_wif_table net hnet hb58
+  exact wif_rt_prefix c hn mul net pfx hout (by rw [heq, hout]) d comp k hk flag
+
+/-- with the flag the key was built with, the parsed key is the key itself -/
+theorem C10_wif_rt_same (c : CurveParams) (hn : c.n ≤ 2 ^ 256) (mul : Int → Except Curve.Err Pt)
+    (net : Addr.Network) (hnet : net ∈ Gen.Networks.all) (hb58 : net.b58DoubleSha = true)
+    (d : Int) (comp : Bool) (k : Key) (hk : keyFromSecretWith c mul d comp = .ok k) :
+    ∃ t, Key.wif net k none = .ok (some t) ∧ parseWifWith c mul net t = .ok (some k) := by
+  obtain ⟨t, h1, h2⟩ := C10_wif_rt c hn mul net hnet hb58 d comp k hk none
+  obtain ⟨-, -, hse, hcomp, -, -⟩ := (C10_key_ctor_sound c mul d comp k).1 hk
+  refine ⟨t, h1, ?_⟩
+  rw [h2]
+  cases k
+  simp_all
+
+/-- `parse.wif` never returns a key whose exponent is outside `[1, n−1]` -/
+theorem C10_wif_parse_range (c : CurveParams) (mul : Int → Except Curve.Err Pt) (net : Addr.Network) (t : Bytes)
+    (k : Key) (h : parseWifWith c mul net t = .ok (some k)) : ∃ d, k.se = some d ∧ 1 ≤ d ∧ d < c.n := by
+  unfold parseWifWith at h
+  split at h
+  · rename_i data pfx _ _
+    split at h
+    · simp only at h
+      split at h
+      · split at h
+        · rename_i k' hk'
+          injection h with h; injection h with h; subst h
+          obtain ⟨h1, h2, h3, -⟩ := (C10_key_ctor_sound c mul _ _ _).1 hk'
+          exact ⟨_, h3, h1, h2⟩
+        · split at h <;> cases h
+      · split at h
+        · split at h
+          · rename_i k' hk'
+            injection h with h; injection h with h; subst h
+            obtain ⟨h1, h2, h3, -⟩ := (C10_key_ctor_sound c mul _ _ _).1 hk'
+            exact ⟨_, h3, h1, h2⟩
+          · split at h <;> cases h
+        · cases h
+    · cases h
+  · cases h
+
+end wif
+
 /-! ## DER (`pycoin/satoshi/der.py`) -/
 section der
 open Pycoin.Der
